@@ -18,7 +18,9 @@
     - [C01_operator_table]: every strict operator, [and]/[or], the unary operators and the
       augmented assignments are mapped to the Python operator with the same meaning;
     - [C01_range_positive_step]: the emitted range holds exactly the documented elements
-      when the step is positive (exclusive: any step).
+      when the step is positive (exclusive: any step);
+    - [C01_pure_expressions_partial]: the whole pipeline [conv] + evaluation for every pure
+      expression tree (a full simulation on that fragment).
     Missing for the full statement: the simulation between [MEval.mev] and [PyEval.cexpr]
     through [Convert.conv] for whole programs (function calls, environments, fuel); the
     direct oracle (reference semantics vs python3 on the emitted text) explores it.
@@ -27,7 +29,7 @@
     [Example]s at the end run a class program through both. *)
 From Coq Require Import List String Bool ZArith.
 From MambaModel Require Import model.Core model.SemDom model.Convert model.PySem model.PyEval model.MEval.
-From MambaModel Require Import proofs.PySemProps proofs.MEvalProps.
+From MambaModel Require Import proofs.PySemProps proofs.MEvalProps proofs.ExprSim.
 Import ListNotations.
 
 Definition C01_statement : Prop :=
@@ -156,6 +158,25 @@ Example passed_on_argument_is_outside :
             /\ run_py 60 c = ([], Uncaught "AttributeError").
 Proof. eexists. split; [vm_compute; reflexivity|]. split; vm_compute; reflexivity. Qed.
 
+(** Pure expressions (literals, identifiers, tuples, lists, indexing, all strict operators, and/or, unary
+    operators; no calls, no [?], no ranges, no sqrt): for EVERY such expression tree, every state without pending
+    return/assignment flags and every imports record, the desugaring succeeds, registers no import, and the
+    emitted expression evaluates in the model of Python to exactly the value - or raises exactly the exception -
+    that the reference semantics gives, in every pair of environments with the same variables and for every
+    fuel at least as large; neither side changes its environment.  ([Rel] claims nothing when the reference
+    semantics itself is undefined: unsupported value shapes, out of fuel.) *)
+Theorem C01_pure_expressions_partial :
+  forall a st i c i',
+    pure a = true -> plain st -> conv a st i = Some (c, i') ->
+    i' = i /\ forall f g em ep, f <= g -> env_rel em ep -> Rel em ep (mev f a em) (cexpr g c ep).
+Proof. exact pure_expr_correct. Qed.
+
+Theorem C01_pure_expressions_convert :
+  forall a st i, pure a = true -> plain st -> exists c, conv a st i = Some (c, i).
+Proof. exact pure_expr_converts. Qed.
+
+Print Assumptions C01_pure_expressions_partial.
+Print Assumptions C01_pure_expressions_convert.
 Print Assumptions C01_implicit_return_partial.
 Print Assumptions C01_assign_in_branches_partial.
 Print Assumptions C01_operator_table.
